@@ -55,13 +55,25 @@ func Commit(db objects.Store, rs ref.Store, id uuid.UUID) (commits map[string]*o
 	if err != nil {
 		return nil, err
 	}
+	if tx.Status == ref.TSCommitted {
+		return nil, fmt.Errorf("transaction is already committed")
+	}
 	m, err := ref.ListTransactionRefs(rs, id)
+	if err != nil {
+		return nil, err
+	}
+	// branches that an earlier, interrupted attempt to commit this transaction
+	// has already moved must not be committed a second time
+	logs, err := rs.GetTransactionLogs(id)
 	if err != nil {
 		return nil, err
 	}
 	commits = map[string]*objects.Commit{}
 	buf := bytes.NewBuffer(nil)
 	for branch, sum := range m {
+		if _, ok := logs[ref.HeadRef(branch)]; ok {
+			continue
+		}
 		com, err := objects.GetCommit(db, sum)
 		if err != nil {
 			return nil, err
@@ -97,6 +109,13 @@ func Commit(db objects.Store, rs ref.Store, id uuid.UUID) (commits map[string]*o
 }
 
 func Discard(rs ref.Store, id uuid.UUID) (err error) {
+	tx, err := rs.GetTransaction(id)
+	if err != nil {
+		return err
+	}
+	if tx.Status == ref.TSCommitted {
+		return fmt.Errorf("cannot discard committed transaction")
+	}
 	if err = ref.DeleteTransactionRefs(rs, id); err != nil {
 		return
 	}
